@@ -1050,6 +1050,14 @@ fn dispatch<C: CI>(op: Op, a: &[&[u8]]) -> R<Vec<Vec<u8>>> {
             let (c1, c2, message_proof, blinder_proof, challenge) = <C as BlsElGamal>::seal_scalar_with_proof(pk.0, m.0, None, Some(b.0), own_rng()).map_err(e)?;
             Ok(vec![Vec::from(&ElGamalProof::<C> { ciphertext: ElGamalCiphertext { c1, c2 }, message_proof, blinder_proof, challenge })])
         }
+        Op::VerifyIn => {
+            let cs = Codec::from_u8(*arg(a, 0)?.first().ok_or("codec")?).ok_or("codec")?;
+            let cp = Codec::from_u8(*arg(a, 2)?.first().ok_or("codec")?).ok_or("codec")?;
+            let sig = <Signature<C> as Wire>::dec(cs, arg(a, 1)?)?;
+            let pk = <PublicKey<C> as Wire>::dec(cp, arg(a, 3)?)?;
+            sig.verify(&pk, arg(a, 4)?).map_err(e)?;
+            Ok(vec![])
+        }
         Op::MultiSigVerifyKeys => {
             let ms = MultiSignature::<C>::try_from(arg(a, 0)?).map_err(e)?;
             let pks = many(a, 2, |b| PublicKey::<C>::try_from(b).map_err(e))?;
